@@ -133,7 +133,9 @@ def word(rng):
             suf = ""      # 0x..p+0f : the f is no suffix there
         return sg + txt + suf, [f32(val) if k == "f" else f64(val)]
     if k == "c":
-        c = rng.choice([97, 65, 48, 32, 35, 37, 46, 34, 39, 92, 7, 8, 9, 10, 11, 12, 13, 126])
+        c = rng.choice([97, 65, 48, 32, 35, 37, 46, 34, 39, 92, 7, 8, 9, 10, 11, 12, 13, 126, 0])
+        if c == 0:
+            return "'\\0'", ["c:0"]
         if c == 92 and rng.random() < 0.5:
             return "'\\'", ["c:92"]                # the mistyped backslash
         if c in ESC:
@@ -187,8 +189,39 @@ def sep(rng, allow_comment=True):
             out += " % " + rng.choice(["a comment", "1 2 3", "\"", "[", "..."]) + "\n"
     return out
 
+def adjacent_ranges(rng):
+    """a range directly followed by a range of the same type: the second takes the first one's
+    last element for the "a" of "a b ... c" (doc/Guide.adoc), so its step is b - last"""
+    k = rng.choice("ihc")
+    suf = "h" if k == "h" else ""
+    def lit(v):
+        return "'%c'" % v if k == "c" else "%d%s" % (v, suf)
+    base = rng.randint(60, 90) if k == "c" else rng.randint(-20, 20)
+    n1 = rng.randint(2, 6)
+    d1 = rng.choice([1, -1]) if rng.random() < 0.7 else rng.choice([2, 3, -2])
+    if k == "c":
+        d1 = abs(d1)
+    last1 = base + d1 * (n1 - 1)
+    if abs(d1) == 1:
+        t1 = "%s ... %s" % (lit(base), lit(last1))
+        s1 = ["R:%d:1" % n1, "%s:%d" % (k, d1), "%s:%d" % (k, base)]
+    else:
+        n1 = max(n1, 3); last1 = base + d1 * (n1 - 1)
+        t1 = "%s %s ... %s" % (lit(base), lit(base + d1), lit(last1))
+        s1 = ["%s:%d" % (k, base), "R:%d:1" % (n1 - 1), "%s:%d" % (k, d1), "%s:%d" % (k, base + d1)]
+    d2 = rng.choice([1, 2, 4, -3]) if k != "c" else rng.choice([1, 2, 3])
+    n2 = rng.randint(2, 5)
+    b2 = last1 + d2
+    c2 = b2 + d2 * (n2 - 1)
+    t2 = "%s ... %s" % (lit(b2), lit(c2))
+    s2 = ["R:%d:1" % n2, "%s:%d" % (k, d2), "%s:%d" % (k, b2)]
+    return t1 + sep(rng) + t2, s1 + s2
+
 def structured(rng):
     """ranges, repetitions, arrays: (text, slots)"""
+    q = rng.random()
+    if q < 0.15:
+        return adjacent_ranges(rng)
     q = rng.random()
     if q < 0.3:
         n = rng.randint(1, 9)
@@ -233,14 +266,19 @@ def gen(rng, tier, dist):
     for _ in range(n):
         nw = rng.choice([1, 1, 2, 2, 3, 4, 6, 10])
         text, slots, kind = "", [], "sc"
+        lead = rng.random()
         for j in range(nw):
-            if rng.random() < 0.15:
-                t, sl = structured(rng); kind = "xs"; bump("structured")
+            if rng.random() < 0.15 or (lead < 0.12 and j == min(nw - 1, int(lead * 33))):
+                t, sl = structured(rng); bump("structured")
                 # "b ... c" takes a preceding value of b's type for the "a" of "a b ... c"
                 # (doc/Guide.adoc): keep such a neighbour away unless it is meant
+                # (after an array the scanner takes the array's last element: finding
+                # range-after-array, generated on purpose now and then)
                 if " ... " in t and slots and slots[-1][0] == sl[-1][0]:
-                    text += "nil" + sep(rng)
-                    slots.append("N")
+                    after_array = text.rstrip(" \n\t").endswith("]")
+                    if not (after_array and not t.split(" ... ")[0].count(" ") and rng.random() < 0.5):
+                        text += "nil" + sep(rng)
+                        slots.append("N")
             else:
                 t, sl = word(rng)
                 while sl is None:
@@ -292,6 +330,12 @@ def nontrivial(case, impl):
     return ";" in f[2] and (b"%" in text or b"0x" in text or b"..." in text or b"e" in text)
 
 def classify(case, impl, failure):
+    """range-after-array: a range "b ... c" whose left neighbour is an array ending in a value of b's type"""
+    import re
+    text = bytes.fromhex(case.split(" ")[1]).decode("latin-1")
+    text = re.sub(r"%[^\n]*", " ", text)
+    if re.search(r"[0-9a-zA-Z'\"]h?\s*\]\s+[-+0-9'][^\s]*\s+\.\.\.", text):
+        return "range-after-array"
     return None
 
 TECHNIQUE = ("Coq proofs over the same recogniser models as C10 (token lemmas shared by checker and scanner, "
@@ -301,5 +345,5 @@ LEVEL_TEXT = ("Partial. For every sentence of the modelled fragment (values of C
               "text consumed, values = denotation, white-space invariance, reprint (C11_agree_denotes_partial, "
               "C11_simulation_partial, C11_ws_invariant_partial, C11_reprint_partial). Alternative numeric spellings, comments, "
               "identifiers, colours/MIDI/BLOB are in the model and compared with the implementation; NxA, ranges and arrays are "
-              "checked on the implementation against the generator's denotation only.")
+              "now in the model and compared with the implementation; NxV repetitions are in the theorems (C11_elements_agree_partial).")
 LEVEL_NOTE = "See notes/C11.md (fragment limits, known finding range-after-array)."
